@@ -20,11 +20,13 @@ NamesOf(vals) == {vals[i].n : i \in 1..Len(vals)}
 DescribedNames(d) == {d.prog[d.root].fields[i].name : i \in {j \in 1..Len(d.prog[d.root].fields) :
                             d.prog[d.root].fields[j].k = "Int" /\ d.prog[d.root].fields[j].desc.kind # "none"}}
 FullDom(d) == ValsDom(d.prog, d.prog[d.root].fields, 1, IF d.kw = "small" THEN 0 ELSE 1)
+DataNames(d) == {d.prog[d.root].fields[i].name : i \in {j \in 1..Len(d.prog[d.root].fields) : d.prog[d.root].fields[j].k = "Data"}}
 BitsNames(d) == {d.prog[d.root].fields[i].name : i \in {j \in 1..Len(d.prog[d.root].fields) : d.prog[d.root].fields[j].k = "Bits"}}
 KwargsOf(d) ==
     IF d.kw = "full" THEN FullDom(d)
     \* ... and assignments in which one bit field holds None: that pack fails half-way through the run
     ELSE IF d.kw = "fullbad" THEN FullDom(d) \cup {SetVal(full, n, NoneV) : full \in FullDom(d), n \in BitsNames(d)}
+                                              \cup {SetVal(full, n, ListV(<<IntV(65)>>)) : full \in FullDom(d), n \in DataNames(d)}
     ELSE IF d.kw = "small"      \* also without the described fields: they are then computed
     THEN FullDom(d) \cup {RestrictTo(full, NamesOf(full) \ DescribedNames(d)) : full \in FullDom(d)} \cup {<<>>}
     ELSE UNION {{RestrictTo(full, S) : S \in SUBSET NamesOf(full)} : full \in FullDom(d)}
@@ -108,6 +110,15 @@ U_C12V(zz) ==
      VDecl([C0 |-> Class(DefaultOpts, <<IntF("a", 2, TRUE, "default"), RefF("s", "C1"), RepCountF("r", RefF("e", "C1"), SzConst(1), NoCond, 0)>>),
             C1 |-> Class(DefaultOpts, <<IntF("x", 1, FALSE, "default"), IntF("y", 3, TRUE, "little")>>)], "full", 1, FALSE),
      V1(<<U1("a"), MvField(DataF("d", SzConst(2)), [kind |-> "at", arg |-> SzField("a"), ref |-> "innermost-pkt"]), U1("z")>>, "full", FALSE),
+     \* a list where a byte string is expected, for every way of ending the byte string (top level and one level down)
+     VDecl([C0 |-> Class(DefaultOpts, <<U1("t"), WithDesc(U1("m"), [kind |-> "check", e |-> EC(0)]), WithDesc(U1("n"), [kind |-> "autolen", of |-> "o"]),
+                                        OptF("o", DataF("e", SzConst(1)), SzField("t"))>>)], "subsets", 1, FALSE),
+     V1(<<U1("a"), DataF("d", SzMarker(<<0>>, TRUE, TRUE))>>, "fullbad", FALSE),
+     V1(<<U1("a"), DataF("d", SzMarker(<<0>>, FALSE, TRUE))>>, "fullbad", FALSE),
+     V1(<<U1("a"), DataF("d", SzField("a"))>>, "fullbad", FALSE),
+     V1(<<U1("a"), DataF("d", SzRegex("Xplus", TRUE, TRUE))>>, "fullbad", FALSE),
+     VDecl([C0 |-> Class(DefaultOpts, <<U1("h"), RepCountF("r", RefF("e", "C1"), SzConst(1), NoCond, 0)>>),
+            C1 |-> Class(DefaultOpts, <<DataF("d", SzMarker(<<0>>, TRUE, TRUE))>>)], "full", 1, FALSE),
      \* a self-referential class (an optional reference back to the class itself, through a callable): a failure three levels
      \* down (the innermost default packet holds an unrepresentable value) is reported with one entry per level
      VDecl([C0 |-> Class(DefaultOpts, <<U1("t"), WithDflt(U1("v"), 300),
@@ -122,7 +133,9 @@ U_C07V(zz) == {V1(BitFields(ws), "full", TRUE) : ws \in {<<4, 4>>, <<3, 5>>, <<1
           \cup {V1(BitFields(ws), "fullbad", FALSE) : ws \in {<<2, 3, 3>>, <<4, 8, 4>>}}
 
 \* -------------------------------------------------------------------- C20
-U_C20(zz) == {EqDecl([C0 |-> Class(DefaultOpts, Embedded("p", "C1", <<[n |-> "x", v |-> IntV(1)]>>, Sub1.fields) \o <<U1("z")>>), C1 |-> Sub1]),
+U_C20(zz) == {EqDecl([C0 |-> Class(DefaultOpts, <<U1("a"), IntF("_reserved", 2, FALSE, "default"), DataF("_pad", SzConst(1)), RefF("s", "C1")>>),
+                      C1 |-> Class(DefaultOpts, <<U1("_x"), U1("y")>>)]),
+          EqDecl([C0 |-> Class(DefaultOpts, Embedded("p", "C1", <<[n |-> "x", v |-> IntV(1)]>>, Sub1.fields) \o <<U1("z")>>), C1 |-> Sub1]),
           EqDecl([C0 |-> Class(DefaultOpts, <<U1("a"), IntF("b", 2, TRUE, "little"), DataF("d", SzField("a"))>>)]),
           EqDecl([C0 |-> Class(DefaultOpts, <<U1("a"), MvField(U1("b"), [kind |-> "at", arg |-> SzConst(3), ref |-> "innermost-pkt"]), U1("c")>>)]),
           EqDecl([C0 |-> Class(DefaultOpts, <<U1("a"), MvField(DataF("d", SzConst(1)), [kind |-> "shift", arg |-> SzConst(1), ref |-> "current-offset"]),
@@ -132,6 +145,10 @@ U_C20(zz) == {EqDecl([C0 |-> Class(DefaultOpts, Embedded("p", "C1", <<[n |-> "x"
           EqDecl([C0 |-> Class(DefaultOpts, <<WithDesc(U1("n"), [kind |-> "autolen", of |-> "d"]), DataF("d", SzField("n")), U1("z")>>)]),
           EqDecl([C0 |-> Class(DefaultOpts, <<U1("t"), RefF("s", "C1"), RepCountF("r", RefF("e", "C1"), SzField("t"), NoCond, 0),
                                               OptF("o", U1("e"), SzField("t"))>>), C1 |-> Sub1]),
+          \* three levels of nesting with a list two levels down: a change deep inside q must make it unequal to p
+          EqDecl([C0 |-> Class(DefaultOpts, <<U1("t"), RefF("s", "C1")>>),
+                  C1 |-> Class(DefaultOpts, <<U1("a"), RefF("m", "C2"), [RepCountF("k", U1("e"), SzConst(1), NoCond, 0) EXCEPT !.dflt = <<IntV(1)>>]>>),
+                  C2 |-> Class(DefaultOpts, <<U1("x"), U1("y")>>)]),
           \* optional SIZED values (present on one side, absent on the other); an embedded class with a described field
           EqDecl([C0 |-> Class(DefaultOpts, <<U1("t"), OptF("o", DataF("e", SzConst(1)), SzField("t")),
                                               RepCountF("q", DataF("e", SzConst(1)), SzConst(1), SzField("t"), 0)>>)]),
